@@ -553,7 +553,7 @@ for _i in range(1, 21):
 # registered for both and reports under its home id.  property -> [(module, rule function)]
 SHARED = {
     "C01": [("c12", "r12_1b_hebrew_compare"), ("c02", "r02_5_leap_decisions"), ("c13", "r13_1_year_cache_keys"), ("c02", "r02_7_hebrew_molad"), ("c02", "r02_8_registry_round_trip")],
-    "C02": [("c13", "r13_1_year_cache_keys"), ("c01", "r01_5_per_year_consistency"), ("c01", "r01_13_days_since_epoch_uses_hooks")],
+    "C02": [("c13", "r13_1_year_cache_keys"), ("c01", "r01_5_per_year_consistency"), ("c01", "r01_13_days_since_epoch_uses_hooks"), ("c01", "r01_14_gregorian_fast_tables")],
     "C03": [("c11", "r11_4_sign_discipline"), ("c15", "r15_12_timedelta_fields"), ("c15", "r15_13_no_coarser_type_on_the_way")],
     "C04": [("c02", "r02_5_leap_decisions")],
     "C06": [("c04", "r04_8_queries_are_used"), ("c02", "r02_5_leap_decisions"), ("c13", "r13_2_zone_interval_cache"), ("c01", "r01_5_per_year_consistency")],
@@ -563,7 +563,7 @@ SHARED = {
     "C16": [("c01", "r01_11_trusted_packings"), ("c10", "r10_14_borrow_and_carry_use_the_right_year"), ("c01", "r01_10_year_starts_vs_year_lengths"), ("c01", "r01_5_per_year_consistency")],
     "C09": [("c01", "r01_11_trusted_packings"), ("c10", "r10_14_borrow_and_carry_use_the_right_year"), ("c13", "r13_10_cache_slot_is_validated_for_its_own_key"), ("c13", "r13_12_packed_cache_words_are_unpacked")],
     "C11": [("c03", "r03_11_trusted_instants"), ("c10", "r10_14_borrow_and_carry_use_the_right_year"), ("c13", "r13_2_zone_interval_cache"), ("c06", "r06_11_fixed_zone_table")],
-    "C15": [("c03", "r03_11_trusted_instants"), ("c02", "r02_5_leap_decisions"), ("c03", "r03_15_duration_truncated_views")],
+    "C15": [("c03", "r03_11_trusted_instants"), ("c02", "r02_5_leap_decisions"), ("c03", "r03_15_duration_truncated_views"), ("c01", "r01_14_gregorian_fast_tables")],
     "C14": [("c03", "r03_14_tick_arithmetic")],
     "C07": [("c08", "r08_7_embedded_fields"), ("c17", "r17_8_variable_precision_predicates"), ("c08", "r08_10_field_set_tests"), ("c17", "r17_7_sign_predicates")],
     "C05": [("c01", "r01_cfp_calendar_free_productions"), ("c04", "r04_12_cache_periods_stay_in_range")],
